@@ -26,6 +26,8 @@ struct Case {
     post: StateJ,
     prog: Vec<Program>,
     units: Vec<Vec<CandJ>>,
+    #[serde(default)]
+    descent: crate::c01::Descent,
 }
 
 pub fn check_case(inv: &Inverse, v: &Value) -> Value {
@@ -46,7 +48,7 @@ pub fn check_case(inv: &Inverse, v: &Value) -> Value {
     };
     let tx = engine.begin();
     for c in &case.seq {
-        match engine.apply_in_warp(tx, ids::warp(&c.w), programs::rule_name(c.r), &ids::node(&c.n), &[]) {
+        match engine.apply_in_warp(tx, ids::warp(&c.w), programs::rule_name(c.r), &ids::node(&c.n), &crate::c01::descent_stack(&case.descent, &c.w)) {
             Ok(ApplyResult::Applied) => {}
             other => return json!({"verdict":"tool_error","detail":format!("apply {c:?}: {other:?}")}),
         }
